@@ -79,7 +79,18 @@ let run (toks : string list) : string =
       let ops = parse rest in
       let rec go s ops acc = match ops with
         | [] -> List.rev acc
-        | o :: t -> let (s1, x) = step s o in go s1 t (show_out x :: acc) in
+        | o :: t ->
+            let (s1, x) = step s o in
+            let bad = (match x with ((RBad, _), _) -> true | _ -> false) in
+            let x' = (match o with
+              | Poll _ when not bad ->
+                  let ((r, ws), ds) = x in
+                  let ds = List.sort compare (List.map int_of_n ds) in
+                  show r ^ " @" ^ i (chan_len s1)
+                  ^ String.concat "" (List.map (fun w -> " !" ^ i w) ws)
+                  ^ String.concat "" (List.map (fun d -> " ~" ^ string_of_int d) ds)
+              | _ -> show_out x) in
+            go s1 t (x' :: acc) in
       String.concat " ; " (go s0 ops [])
   | _ -> failwith "bad mpscb case"
 
